@@ -125,7 +125,7 @@ func onceBodies(P *Program) map[*ssa.Function]*ssa.Call {
 		}
 		for _, ci := range callsIn(fn) {
 			c, ok := ci.(*ssa.Call)
-			if !ok || calleeName(c) != "(*sync.Once).Do" || len(c.Call.Args) < 2 {
+			if !ok || !calleeIs(c, "(*sync.Once).Do") || len(c.Call.Args) < 2 {
 				continue
 			}
 			var body *ssa.Function
@@ -204,7 +204,7 @@ func synchronised(P *Program, fn *ssa.Function, ins ssa.Instruction) (bool, stri
 			if j == ins && b == ins.Block() {
 				break
 			}
-			if c, ok := j.(*ssa.Call); ok && (calleeName(c) == "(*sync.Mutex).Lock" || calleeName(c) == "(*sync.RWMutex).Lock") {
+			if c, ok := j.(*ssa.Call); ok && (calleeIs(c, "(*sync.Mutex).Lock") || calleeIs(c, "(*sync.RWMutex).Lock")) {
 				return true, "under " + calleeName(c)
 			}
 		}
@@ -377,7 +377,7 @@ func workerPoolRule(P *Program, R *Report) {
 		// Wait post-dominates the spawns: every return passes a WaitGroup.Wait
 		mp(P, R, rule, key+":joined", "every return of the function passes WaitGroup.Wait (workers are joined before results are used)", fn, AcceptAny(), &MustPass{Instr: func(_ *ssa.Function, i ssa.Instruction) bool {
 			c, ok := i.(*ssa.Call)
-			return ok && calleeName(c) == "(*sync.WaitGroup).Wait"
+			return ok && calleeIs(c, "(*sync.WaitGroup).Wait")
 		}})
 		for _, g := range gos {
 			mc, ok := g.Call.Value.(*ssa.MakeClosure)
@@ -395,7 +395,7 @@ func workerPoolRule(P *Program, R *Report) {
 					if strings.HasPrefix(calleeName(x), "sync/atomic.Add") {
 						atomicIdx = true
 					}
-					if calleeName(x) == "(*sync.WaitGroup).Done" {
+					if calleeIs(x, "(*sync.WaitGroup).Done") {
 						done = true
 					}
 				case *ssa.Store:
@@ -666,7 +666,7 @@ func onceGuardedReadsRule(P *Program, R *Report) {
 			for _, ld := range loads {
 				q := &MustPass{P: P, Instr: func(_ *ssa.Function, i ssa.Instruction) bool {
 					c, isC := i.(*ssa.Call)
-					return isC && calleeName(c) == "(*sync.Once).Do"
+					return isC && calleeIs(c, "(*sync.Once).Do")
 				}}
 				if r := q.MustReach(fn, ld); !r.Holds {
 					ok = false
